@@ -707,6 +707,32 @@ def smodel_replace_named(t, new):
     return (t[0], smodel_replace_named(t[1], new))
 
 
+def invalid_variant(rng, s, doc):
+    """One random rule-violating rewrite of `doc` (same operation / fragment names): (rule, text) or None.  Used by the
+    request-history properties (C15, C16) to put documents every rule refuses between valid ones."""
+    base_text = doc.text
+    try:
+        cat = Catalogue(rng, s, doc, 1).build()
+    except Exception:  # noqa
+        return None
+    rng.shuffle(cat)
+    for rule, site, fn, textfn in cat[:6]:
+        if known_mechanism(rule, site):
+            continue
+        d2 = copy.deepcopy(doc)
+        try:
+            if fn:
+                fn(d2)
+            text = print_rewritten(rng, d2)
+            if textfn:
+                text = textfn(text)
+        except Exception:  # noqa  rewrite not applicable to this copy
+            continue
+        if text != base_text:
+            return rule, text
+    return None
+
+
 def print_rewritten(rng, doc2):
     style = {"multiline": False, "nl": "\n", "shorthand": not getattr(doc2, "force_longhand", False)}
     text = docgen.print_doc(doc2, rng, style)
@@ -746,8 +772,7 @@ async def run_case(ctx, rng, index):
             # the base document must be accepted (else C06's business)
             w0 = world_mod.World(s, 1)
             r0 = await b.engine.execute(base_text, operation_name=op.name, context={"world": w0}, variables=variables)
-            from vt.props.c06 import classify as c06_classify
-            if c06_classify(r0):
+            if X.refused(r0, w0):
                 st.inc("base-document-refused")
                 continue
             cat = Catalogue(rng, s, doc, cap).build()
@@ -786,6 +811,8 @@ async def run_case(ctx, rng, index):
                     # audit: refused by the rule the rewrite targets?  (a rewrite always masked by another rule would leave
                     # the targeted rule unexercised)
                     tags = {(e.get("extensions") or {}).get("tag") for e in resp["errors"] if isinstance(e, dict)}
+                    if tags - {None}:
+                        st.inc("refusals-carrying-a-rule-tag")
                     if TAG_OF.get(rule, rule) in tags:
                         st.inc("refused-by-targeted-rule:" + rule)
                     else:
@@ -808,6 +835,10 @@ TAG_OF = {"fields-exist": "field-selections-on-objects-interfaces-and-unions-typ
 
 def post_check(counters, distinct):
     out = []
+    if not counters.get("refusals-carrying-a-rule-tag"):
+        # the engine does not label its validation errors with extensions.tag (nothing in the property requires it): the
+        # audit of WHICH rule refused is not available; the oracle (refused, nothing ran) does not depend on it
+        return out
     rules = {k.split(":", 1)[1] for k in counters if k.startswith("rule:")}
     for rule in sorted(rules):
         n = counters.get("rule:" + rule, 0)
